@@ -105,7 +105,8 @@ def hit(request, point, aux=0, n=0, may_false=False):
     scn, level = _scn(request)
     _log(request, point, aux)
     for r in scn['regs']:
-        if r[0] == point:
+        # a registration made by a callback belongs to the r[2]-th callback of that kind to run
+        if r[0] == point and (point not in (RESP_CB, FIN_CB) or r[2] == n):
             if r[1] & 1:
                 request.add_response_callback(_make_resp_cb(point))
             if r[1] & 2:
